@@ -385,6 +385,62 @@ def r3_9(ctx):
     ctx.floor(rid, n, 4, "accumulations of a bound with a strictness flag")
 
 
+def r3_10(ctx):
+    import re
+    rid = "R3.10"
+    ctx.rule(rid, "a saturating counter keeps counting as long as its value matters: the affine transformers of BD_Shape and Octagonal_Shape count the unbounded terms of a sum (`pos_pinf_count`, ...) while accumulating the bounded ones, under a guard `count <= K` that stops the work once the sum is known to be useless; after the loop the code uses the sum for every count up to some K' (`count <= 1`, `count == 1`: one unbounded term can still be moved to the other side). The guard inside the loop must admit every count the code after the loop still uses (K >= K'); with a tighter guard the terms that follow the first unbounded one are never added and the bound derived for `count == 1` is too small")
+    fx = ctx.extract([F.driver_unit("domains.cc", file_re=r"(BD_Shape_templates|Octagonal_Shape_templates)\.hh")])
+    n = 0
+    seen = set()
+
+    def thresholds(f, nodes, c):
+        """largest value of c admitted by the comparisons `c <= K`, `c < K`, `c == K` among nodes"""
+        out = []
+        for x in nodes:
+            if x["k"] in ("binop", "ocall") and x.get("op") in ("<=", "<", "==") and len(x.get("c", ())) >= 2:
+                l, r = f.deref(x["c"][-2]), f.deref(x["c"][-1])
+                if l is not None and r is not None and l["k"] == "ref" and l.get("n") == c and re.match(r"^\d+$", f.text(r).strip()):
+                    k = int(f.text(r).strip())
+                    out.append((k - 1 if x["op"] == "<" else k, x))
+        return out
+    for f in fx.functions:
+        if not f.flag("pattern") or (f.relfile, f.line) in seen:
+            continue
+        seen.add((f.relfile, f.line))
+        loops = [lp for lp in f.walk() if lp["k"] in ("for", "while", "do")]
+        counters = {}
+        for lp in loops:
+            for x in f.walk(lp):
+                if x["k"] == "unop" and x.get("op") == "++":
+                    o = f.deref(x["c"][0])
+                    if o is not None and o["k"] == "ref" and o.get("dk") == "local" and o.get("n", "").endswith("_count"):
+                        counters.setdefault(o["n"], []).append((lp, x))
+        for c, incs in sorted(counters.items()):
+            guards = []
+            in_loop_ids = set()
+            for lp, inc in incs:
+                for y in f.walk(lp):
+                    in_loop_ids.add(y["i"])
+                for a in f.ancestors(inc):
+                    if a["k"] == "if" and f.within(a, lp):
+                        guards += thresholds(f, list(f.walk(f.deref(a["c"][2]))), c)
+            if not guards:
+                continue
+            after = [t for t in thresholds(f, [y for y in f.walk() if y["i"] not in in_loop_ids], c)]
+            if not after:
+                continue
+            n += 1
+            kg = min(k for k, _ in guards)
+            ka = max(k for k, _ in after)
+            inst = "%s: counter `%s`" % (f.name, c)
+            if kg >= ka:
+                ctx.ok(rid, inst, f.where(incs[0][1]))
+            else:
+                g = min(guards, key=lambda t: t[0])[1]
+                ctx.violation(rid, inst, f.where(g), "inside the loop the terms are accumulated only while `%s` is at most %d (line %s), but after the loop the sum is used for counts up to %d (line %s): the terms after the first unbounded one are missing from it" % (c, kg, g.get("l"), ka, max(after, key=lambda t: t[0])[1].get("l")))
+    ctx.floor(rid, n, 10, "saturating counters")
+
+
 def run(ctx):
     ctx.explanation = ("C03 rounding discipline on the instantiated weakly-relational domains (double, int32_t, mpz_class; mpq_class in the thorough tier): who may round "
                        "down, where ROUND_NOT_NEEDED may be used, and the encodings it rests on; decides the discipline, not the case analysis of the transformers")
@@ -401,5 +457,6 @@ def run(ctx):
     r3_7(ctx)
     r3_8(ctx)
     r3_9(ctx)
+    r3_10(ctx)
     dirty.run(ctx, "R3.4", fxb, lambda f: True, 150,
               "judged on Box<Rational_Interval>, BD_Shape<mpq_class>, Octagonal_Shape<mpq_class> and their matrices (found Box::generalized_affine_preimage multiplying by a never-written temporary)")
